@@ -190,10 +190,12 @@ def skeleton_digest(fn: ast.FunctionDef, mask: Sequence[ast.AST] = ()) -> str:
 
 
 def load_skeletons() -> Dict[str, str]:
-    p = os.path.join(COQ, "ref", "skeletons.json")
-    if os.path.exists(p):
-        return json.load(open(p))
-    return {}
+    """All recorded skeleton digests: coq/ref/skeletons*.json merged."""
+    import glob
+    out: Dict[str, str] = {}
+    for p in sorted(glob.glob(os.path.join(COQ, "ref", "skeletons*.json"))):
+        out.update(json.load(open(p)))
+    return out
 
 
 def check_skeleton(key: str, digest: str, found: Dict[str, str]) -> None:
@@ -324,29 +326,57 @@ def gen_py() -> Tuple[str, Dict[str, str]]:
 GENERATORS: Dict[str, Callable[[], Tuple[str, Dict[str, str]]]] = {
     "GenPy.v": gen_py,
 }
+GEN_OWNER: Dict[str, str] = {"GenPy.v": "core"}
+
+
+def _load_plugins() -> None:
+    """tools/translate_<name>.py may define GENERATORS = {"GenX.v": fn}; fn() returns
+    (coq_text, {skeleton_key: digest})."""
+    import glob
+    import importlib
+    for p in sorted(glob.glob(os.path.join(os.path.dirname(os.path.abspath(__file__)), "translate_*.py"))):
+        name = os.path.basename(p)[:-3]
+        mod = importlib.import_module(name)
+        for fname, fn in getattr(mod, "GENERATORS", {}).items():
+            GENERATORS[fname] = fn
+            GEN_OWNER[fname] = name[len("translate_"):]
 
 
 def regenerate_all(only: Optional[Sequence[str]] = None) -> List[Dict[str, str]]:
     """Rewrite coq/gen/*.v (only when content changed).  Raises Broken on failure."""
+    _load_plugins()
     info = []
     ref = load_skeletons()
     found: Dict[str, str] = {}
+    by_owner: Dict[str, Dict[str, str]] = {}
+    errors: List[Broken] = []
     for fname, g in GENERATORS.items():
         if only and fname not in only:
             continue
-        text, skel = g()
+        try:
+            text, skel = g()
+        except Broken as b:
+            errors.append(b)
+            continue
         found.update(skel)
+        by_owner.setdefault(GEN_OWNER.get(fname, "core"), {}).update(skel)
         write_if_changed(os.path.join(COQ, "gen", fname), text)
         info.append({"file": f"coq/gen/{fname}", "sha256": sha256(text)})
+    if errors:
+        raise Broken("; ".join(e.what for e in errors), "\n".join(e.detail for e in errors))
     changed = [k for k, v in found.items() if ref.get(k) != v]
     if os.environ.get("VERIF_RECORD_SKELETONS") == "1":
-        ref.update(found)
-        with open(os.path.join(COQ, "ref", "skeletons.json"), "w") as f:
-            json.dump(ref, f, indent=0, sort_keys=True)
+        for owner, sk in by_owner.items():
+            fn = "skeletons.json" if owner == "core" else f"skeletons_{owner}.json"
+            with open(os.path.join(COQ, "ref", fn), "w") as f:
+                json.dump(sk, f, indent=0, sort_keys=True)
+        import shutil
+        for i in info:                       # last accepted translation = fallback model
+            shutil.copy(os.path.join(VERIF, i["file"]), os.path.join(COQ, "ref", os.path.basename(i["file"])))
     elif changed:
         raise Broken("translator: hand-modelled control skeleton changed in the source: " + ", ".join(sorted(changed)),
                      "the loop/dispatch structure of these functions is modelled by hand in coq/theories; "
-                     "their AST no longer matches coq/ref/skeletons.json")
+                     "their AST no longer matches coq/ref/skeletons*.json")
     return info
 
 
